@@ -19,7 +19,7 @@ def run(tier, seed):
     mtus = MTUS if th else ('h', 'd', 'min')
     fams = [('units', fam.fam_units(), mtus, False), ('units_transport', fam.fam_units_transport(), ('h', 'd', 'min'), False), ('dst', fam.fam_dst(), ('h', 'd'), False),
             # unequal steps crossed with durations (holding time between the lengths of two windows) and with a coarser asset frequency
-            ('hold_dst', fam.fam_storage_hold_dst(), ('h', 'd'), False), ('coarse_dst', fam.fam_coarse_dst(), ('h', 'd'), False), ('discount', fam.fam_discount(), ('h', 'd', 'min'), False),
+            ('hold_dst', fam.fam_storage_hold_dst()[::1 if th else 3], ('h', 'd'), False), ('coarse_dst', fam.fam_coarse_dst()[seed % 2::1 if th else 2], ('h', 'd'), False), ('discount', fam.fam_discount(), ('h', 'd', 'min'), False),
             # fixed costs of a scaled asset are per main time unit
             ('scaled', fam.fam_scaled()[seed % 6::6 if not th else 1], ('h', 'd', 'min'), False),
             ('split', fam.renumber([c for c in fam.fam_split(thorough=th) if c['coupling'] in ('none', 'takes')] + fam.fam_split_discount()), mtus, True)]
